@@ -183,6 +183,94 @@ def _task_special(_):
     return res
 
 
+def _task_messages(_):
+    """the same rules for bodies inside whole messages: the byte order a
+    message declares is the byte order of its body - for messages the
+    library builds, and for messages of either byte order after a trip
+    through the built-in bus (which parses every message and serialises it
+    again with the sender stamped)"""
+    from txdbus import message as MSG
+    from mcx.checks import c03
+    res = core.Result()
+    fams = [(sig, vals) for sig, vals in CS.deep_families()
+            if len(sig) < 200 and 'h' not in sig][:40]
+    fams += [('us', [0x01020304, 'hello']), ('xd', [2**40 + 5, 1.5]),
+             ('a{sv}', [[['k', Var('u', 0x0a0b0c0d)]]]),
+             ('a{sv}v', [[['p', Var('o', '/a/b')], ['y', Var('y', 200)]],
+                         Var('(tg)', [2**40, 'ai'])]),
+             ('(qn)at', [[0x0102, -2], [1, 2**63]]), ('as', [['x', 'yz']])]
+    for sig, refvals in fams:
+        ts = R.parse_sig(sig)
+        tx = [space.to_tx(t, v, 'wrapped') for t, v in zip(ts, refvals)]
+        res.count('states')
+        res.count('nontrivial')
+        rep = {'dir': 'message', 'sig': sig, 'values': repr(refvals)}
+        # built by the library
+        res.count('evaluations')
+        res.count('transitions')
+        try:
+            m = MSG.MethodCallMessage('/p', 'M', signature=sig, body=tx)
+            p = R.parse_message(m.rawMessage)
+            if p['raw_body'] != R.encode(ts, refvals, 0, p['little']):
+                res.violation('%s/message/built/%s' % (PROP, sig),
+                              'a call with body %r %r: the body bytes are not '
+                              'the %s-endian encoding the header announces'
+                              % (sig, tx, 'little' if p['little'] else 'big'),
+                              rep, size=len(sig))
+        except Exception as e:
+            res.violation('%s/message/built-raises/%s' % (PROP,
+                                                          type(e).__name__),
+                          'building / reading a call with body %r raised %r'
+                          % (sig, e), rep, size=len(sig))
+        # received by the bus in either byte order and handed on
+        for le in (True, False):
+            res.count('evaluations')
+            res.count('transitions', 2)
+            order = 'little' if le else 'big'
+
+            def raw_for(dest, le=le):
+                return R.encode_message(
+                    1, 77, {'path': '/p', 'member': 'M', 'interface': 'a.b',
+                            'destination': dest}, sig, refvals, little=le)
+            try:
+                m = MSG.parseMessage(raw_for(':1.9'), [])
+                if not R.same(m.body, R.as_plain(ts, refvals)):
+                    res.violation('%s/message/parse/%s/%s' % (PROP, order,
+                                                              sig),
+                                  'a %s-endian call with body %r %r was '
+                                  'read as %r' % (order, sig, refvals,
+                                                  m.body), rep,
+                                  size=len(sig))
+                    continue
+                sender, p, n = c03.forwarded(raw_for)
+                if p is None:
+                    raise R.RefError('%d messages came out of the bus' % n)
+                if p['raw_body'] != R.encode(ts, refvals, 0, p['little']) \
+                        or p['body'] != refvals:
+                    res.violation(
+                        '%s/message/forwarded/%s/%s' % (PROP, order, sig),
+                        'a %s-endian call with body %r %r came out of the '
+                        'bus announcing %s-endian and carrying %r (%s)'
+                        % (order, sig, refvals,
+                           'little' if p['little'] else 'big', p['body'],
+                           p['raw_body'].hex()[:120]), rep, size=len(sig))
+            except R.RefError as e:
+                c03._FWD.clear()
+                res.violation('%s/message/forwarded-malformed/%s'
+                              % (PROP, order),
+                              'a %s-endian call with body %r %r came out of '
+                              'the bus malformed: %s' % (order, sig, refvals,
+                                                         e), rep,
+                              size=len(sig))
+            except Exception as e:
+                c03._FWD.clear()
+                res.violation('%s/message/raises/%s' % (PROP,
+                                                        type(e).__name__),
+                              'a %s-endian call with body %r raised %r'
+                              % (order, sig, e), rep, size=len(sig))
+    return res
+
+
 def run(ctx):
     Kf, Kr = (3, 4) if ctx.quick else (4, 5)
     ctx.rule = (
@@ -192,6 +280,10 @@ def run(ctx):
         'reference bytes decode to the value with exactly their length '
         'consumed, including %d variants holding types the library never '
         'infers. alignment: all 17 type codes + header x offsets 0..15. '
+        'messages: 46 bodies inside calls built by the library and inside '
+        'calls of either byte order after a trip through the built-in bus - '
+        'the body bytes must be the encoding (typed variant contents '
+        'included) in the byte order the header announces. '
         'state = (signature, values); transition = one library call compared '
         'with the reference' % (Kf, Kr, len(space.FOREIGN_VARIANT_VALUES)))
     ctx.bounds = {'K_full': Kf, 'K_reduced': Kr,
@@ -201,10 +293,14 @@ def run(ctx):
                        'library only through this comparison)']
     ctx.map(_task, CS.partition(Kf, Kr, max(ctx.jobs * 4, 1)))
     ctx.map(_task_special, [0])
+    ctx.map(_task_messages, [0])
 
 
 def replay(data):
     res = core.Result()
+    if data['dir'] == 'message':
+        res = _task_messages(0)
+        return [(s, v['what']) for s, v in res.violations.items()]
     if data['dir'] == 'fds':
         res = _task_special(0)
         return [(s, v['what']) for s, v in res.violations.items()]
